@@ -33,6 +33,14 @@ def secret_sets(rng, tier):
         [" \t ", "", "\u00a0", "\x00"],
         ["x", "", "0", "[redacted]"],
     ]
+    # literals that are new in the source (gen/srclit.py): secrets that contain, start with, end with or are the new words;
+    # secrets whose length is a new integer (and its neighbours)
+    from gen import srclit as SL
+    for w in SL.words():
+        sets.append([w + m(0), m(1) + w, m(2) + w + m(2), w.upper() + " " + m(3)])
+        sets.append([w, m(1), " " + w, w + w])
+    for k in SL.sizes(limit=100000, lo=4):
+        sets.append([(m(0) * (k // 11 + 1))[:k], (m(1) * (k // 11 + 1))[:k + 1], m(2), ("\u00e9" + m(3)) * (k // 13 + 1)])
     if tier == "thorough":
         sets.append([m(0) * 6000, m(1) * 6000, m(2) * 10, m(3)])   # > 64 KiB
     else:
@@ -93,6 +101,11 @@ def run(tier, rng, C):
                 elines.append("DBGERR %s %s" % (pr, C.tlist(secs)))
                 esecs.append(secs)
     eouts = C.run_impl(elines)
+    # what the same error values print when the reply holds four unrelated values: every window of THAT text is public
+    # (the fixed wording of the messages), whatever a secret happens to share with it
+    public = {}
+    for pr, o in zip("01", C.run_impl(["DBGERR %s %s" % (pr, C.tlist(["0123456789abcdef"] * 4)) for pr in "01"])):
+        public[pr] = grams(C.untb(o), 6) if o.startswith("x") else set()
     eleaks = []
     for l, secs, o in zip(elines, esecs, eouts):
         if not o.startswith("x"):
@@ -102,7 +115,7 @@ def run(tier, rng, C):
             # the visible (printable ASCII) stretches of the secret, as a reader would recognise them
             import re as _re
             for part in _re.findall(rb"[\x21-\x7e]{6,}", s.encode("utf-8")):
-                if grams(part, 6) & grams(ob, 6):
+                if (grams(part, 6) & grams(ob, 6)) - public[l.split(" ")[1]]:
                     eleaks.append((l, s[:40]))
                     break
     for l, s in eleaks[:3]:
